@@ -10,6 +10,8 @@ enumerated and fault-injected inputs, in both tolerance modes.
     require every round of token rules to consume a character and every
     read_expr call to advance the token cursor, and the number of reader
     calls must stay within B(n) = 500 + 2 n^2 for an input of n characters;
+    every loop of the package is bounded by a loop-iteration budget
+    (sys.monitoring JUMP events: 50000 + 3000 n + 30 n^2 backward jumps);
   * the wall-clock alarm alone is never a verdict (inconclusive).
 """
 import linecache
@@ -27,6 +29,13 @@ DIAGNOSTICS = (EOFError, TypeError, AssertionError)
 
 def budget(n):
     return 500 + 2 * n * n
+
+
+def loop_budget(n):
+    """backward jumps (loop iterations) allowed inside TexSoup for an input of
+    n characters: >= 10x what the costliest legitimate inputs measured need
+    (~2 100 per command name, ~40 per character)"""
+    return 50000 + 3000 * n + 30 * n * n
 
 
 def innermost_texsoup_frame(tb):
@@ -65,10 +74,15 @@ def parse_outcome(s, tol, ctx):
     from TexSoup import TexSoup
     from tsv.probe import install
     install.STEP_BUDGET['limit'] = budget(len(s))
+    install.LOOP_BUDGET['limit'] = loop_budget(len(s))
     ctx.case_info = {}
     try:
         soup = TexSoup(s, tolerance=tol)
     except ProbeAbort as e:
+        if ctx.case_info.get('over_loop_budget'):
+            return 'budget', None, fail(
+                'loop-budget', 'tolerance=%d: more than %d loop iterations inside TexSoup for %d characters (%s): %s'
+                % (tol, loop_budget(len(s)), len(s), e, short(repr(s), 100)), tol=tol)
         if ctx.case_info.get('over_budget'):
             return 'budget', None, fail(
                 'step-budget', 'tolerance=%d: more than %d reader calls for %d characters: %s'
@@ -82,7 +96,10 @@ def parse_outcome(s, tol, ctx):
         return 'diagnostic', e, None
     finally:
         install.STEP_BUDGET['limit'] = None
+        install.LOOP_BUDGET['limit'] = None
         ctx.maxi('max:steps', ctx.case_info.get('steps', 0))
+        ctx.maxi('max:loop_iterations', ctx.case_info.get('jumps', 0))
+        ctx.count('loop_iterations_observed', ctx.case_info.get('jumps', 0))
     return 'tree', soup, None
 
 
@@ -105,7 +122,7 @@ class C06(Prop):
         'cursors, <= 500+2n^2 reader calls); the 30 s per-case alarm alone '
         'is inconclusive',
     )
-    always_probes = ('tok', 'read')
+    always_probes = ('tok', 'read', 'loops')
     case_alarm = 300     # safety net only: verdicts come from the step budgets
     min_nontrivial = 5000
     budget_s = {'quick': 300, 'thorough': 5400}
@@ -130,13 +147,13 @@ class C06(Prop):
                 yield k2, {'s': ''.join(tup), 'w': 'tokens'}
         k += strgen.count_strings(strgen.TOKENS, 2, Lt)
         toks = strgen.TOKENS + strgen.HOSTILE_TOKENS
-        for j in range(50000 if q else 400000):
+        for j in range(30000 if q else 400000):
             k += 1
             if want(k):
                 rng = random.Random('%d/%d/c06c' % (seed, j))
                 yield k, {'s': strgen.random_string(rng, strgen.CHARS, Lc + 1, Lc + 4),
                           'w': 'chars-sampled'}
-        for j in range(60000 if q else 1500000):
+        for j in range(36000 if q else 1500000):
             k += 1
             if want(k):
                 rng = random.Random('%d/%d/c06r' % (seed, j))
@@ -255,6 +272,8 @@ class C06(Prop):
                 g.append('%s observed fewer than 100 times' % key)
         if c.get('probe:tok', 0) < 100000 or c.get('probe:read_expr', 0) < 100000:
             g.append('progress monitors evaluated too rarely')
+        if c.get('loop_iterations_observed', 0) < 1000000:
+            g.append('loop-iteration monitor observed fewer than 10^6 backward jumps')
         if c.get('growth_shapes_measured', 0) < 500:
             g.append('growth oracle measured fewer than 500 nesting shapes')
         if c.get('max:tower_depth', 0) < 40:
@@ -288,7 +307,7 @@ def _d21(prop, p, fails, rerun):
     an ordinary command; with environments nested inside such arguments the
     work doubles per level."""
     import re
-    if findings.checks_of(fails) - {'step-budget', 'super-polynomial', 'timeout'}:
+    if findings.checks_of(fails) - {'step-budget', 'super-polynomial', 'loop-budget', 'timeout'}:
         return False
     if any(f.get('tol') != 1 for f in fails if f['check'] != 'timeout'):
         return False
